@@ -15,7 +15,9 @@ RULE = ("antefee: the real AdjustGasPriceDecorator.AnteHandle on transactions of
         "tokens 0..2^100), create/edit validator with rates around 5%, (re)delegations with amounts within +-2 of the 6.6% boundary, unknown and "
         "malformed validator addresses, trees as above. antetx: full app, signed txs through DeliverTx, one per block, 20 validators of 5% each: "
         "sends/multisends/proposals, validator edits/creations, (re)delegations, direct and wrapped to depth 3, a third of the delegations split over 2-3 messages of one "
-        "transaction (one of them wrapped) with the sum at the boundary; executed effects observed. "
+        "transaction (one of them wrapped) with the sum at the boundary; a quarter of the transactions: a fresh account creates its validator (self-delegation a) and delegates b to it in the "
+        "same transaction (direct / nested), a+b at the 6.6% boundary, b alone far below; executed effects observed. antecom also: one transaction in six creates a validator (three fresh "
+        "addresses, upper- or lower-case) and then delegates / redelegates to it, directly or nested, with value + amount around the boundary. "
         "non-trivial = distinct operation line (distinct transaction and state).")
 TRUSTED_BASE = [
     "Lean 4.33.0 kernel; axioms propext, Classical.choice, Quot.sound (audited per theorem on every run)",
@@ -37,6 +39,7 @@ ASSUMPTIONS = [
     "sums of admitted amounts stay below 2^255 (sdk.Int.Add would panic; the model uses unbounded integers)",
 ]
 UNPROVED = [
+    "a MsgCreateValidator's own self-delegation is not capped (by design: the rule is about delegations and redelegations); it counts as stake of the new validator for every later (re)delegation of the same transaction",
     "a redelegation's source validator loses tokens and a MsgUndelegate / MsgCreateValidator of the same transaction changes nobody's share upward; these are ignored "
     "(conservative): the theorem bounds every validator that RECEIVES stake through the transaction by tokens-before + everything the transaction adds to it",
     "that DeliverTx runs these two decorators on every transaction and that authz executes exactly the wrapped messages is modelled (trusted base), exercised by family antetx, not proved",
